@@ -47,16 +47,17 @@ theorem below_lt {vs : List Ver} {a b : Ver} (ha : a ∈ vs) (hab : cmpVersion a
 set `vs` (and the versions named by the downgrade are in `vs` too), the loop `for excluded[r]` ends within
 `|vs| + 1` iterations — it never reports `Err.fuel` when given more than `below vs r.ver` iterations (under the separate
 assumption that the bounded recursion `add` itself is given enough fuel). -/
-theorem stepDown_terminates (fuel : Nat) (rq : Reqs) (prev : Mod → Option Mod) (maxv : Sel) (vs : List Ver)
-    (hadd : ∀ st p, (add fuel rq maxv st p).isSome)
-    (hprev : ∀ r p, prev r = some p → p.ver = .none ∨ (p.ver ∈ vs ∧ cmpVersion p.ver r.ver = .lt))
-    (hmax : ∀ p v, maxv.lookup p = some v → v ∈ vs) :
-    ∀ (n : Nat) (st : DState) (r : Mod), below vs r.ver < n → stepDown fuel rq prev maxv n st r ≠ .error .fuel := by
+theorem stepDown_terminates_on (C : Mod → Prop) (fuel : Nat) (rq : Reqs) (prev : Mod → Option Mod) (maxv : Sel) (vs : List Ver)
+    (hadd : ∀ st p, C p → (add fuel rq maxv st p).isSome)
+    (hprev : ∀ r p, C r → prev r = some p → p.ver = .none ∨ (p.ver ∈ vs ∧ cmpVersion p.ver r.ver = .lt ∧ C p))
+    (hmax : ∀ p v, maxv.lookup p = some v → v ∈ vs)
+    (hadj : ∀ r p v, C r → prev r = some p → maxv.lookup r.path = some v → C ⟨p.path, v⟩) :
+    ∀ (n : Nat) (st : DState) (r : Mod), C r → below vs r.ver < n → stepDown fuel rq prev maxv n st r ≠ .error .fuel := by
   intro n
   induction n with
-  | zero => intro st r h; omega
+  | zero => intro st r _ h; omega
   | succ n ih =>
-    intro st r hlt
+    intro st r hcr hlt
     simp only [stepDown]
     split
     · simp
@@ -64,10 +65,10 @@ theorem stepDown_terminates (fuel : Nat) (rq : Reqs) (prev : Mod → Option Mod)
       | none => simp
       | some p =>
         dsimp only
-        -- the candidate after the pseudo-version adjustment is still below r and in vs (or "none")
+        -- the candidate after the pseudo-version adjustment is still below r, in vs and a candidate (or "none")
         have key : ∀ p' : Mod, p' = (if vmax ((maxv.lookup r.path).getD .root) r.ver ≠ (maxv.lookup r.path).getD .root ∧
               vmax p.ver ((maxv.lookup r.path).getD .root) ≠ p.ver then (⟨p.path, (maxv.lookup r.path).getD .root⟩ : Mod) else p) →
-            p'.ver = .none ∨ (p'.ver ∈ vs ∧ cmpVersion p'.ver r.ver = .lt) := by
+            p'.ver = .none ∨ (p'.ver ∈ vs ∧ cmpVersion p'.ver r.ver = .lt ∧ C p') := by
           intro p' hp'
           split at hp'
           · rename_i hc
@@ -86,32 +87,43 @@ theorem stepDown_terminates (fuel : Nat) (rq : Reqs) (prev : Mod → Option Mod)
             | some v =>
               rw [hl] at hc
               simp only [Option.getD_some] at hc ⊢
-              refine ⟨hmax _ _ hl, ?_⟩
+              refine ⟨hmax _ _ hl, ?_, hadj r p v hcr hp hl⟩
               have h1 := hc.1
               rw [vmax_eq] at h1
               split at h1
               · assumption
               · exact absurd rfl h1
           · rw [hp']
-            exact hprev r p hp
+            exact hprev r p hcr hp
         generalize hp' : (if vmax ((maxv.lookup r.path).getD .root) r.ver ≠ (maxv.lookup r.path).getD .root ∧
             vmax p.ver ((maxv.lookup r.path).getD .root) ≠ p.ver then (⟨p.path, (maxv.lookup r.path).getD .root⟩ : Mod) else p) = p'
         have hk := key p' hp'.symm
         split
         · simp
         · rename_i hne
-          rcases hk with h1 | ⟨h1, h2⟩
+          rcases hk with h1 | ⟨h1, h2, h3⟩
           · exact absurd h1 hne
           · cases hadd' : add fuel rq maxv st p' with
             | none =>
-              have := hadd st p'
+              have := hadd st p' h3
               rw [hadd'] at this
               simp at this
             | some st' =>
               dsimp only
-              apply ih
+              apply ih _ _ h3
               have := below_lt h1 h2
               omega
+
+theorem stepDown_terminates (fuel : Nat) (rq : Reqs) (prev : Mod → Option Mod) (maxv : Sel) (vs : List Ver)
+    (hadd : ∀ st p, (add fuel rq maxv st p).isSome)
+    (hprev : ∀ r p, prev r = some p → p.ver = .none ∨ (p.ver ∈ vs ∧ cmpVersion p.ver r.ver = .lt))
+    (hmax : ∀ p v, maxv.lookup p = some v → v ∈ vs) :
+    ∀ (n : Nat) (st : DState) (r : Mod), below vs r.ver < n → stepDown fuel rq prev maxv n st r ≠ .error .fuel :=
+  fun n st r h => stepDown_terminates_on (fun _ => True) fuel rq prev maxv vs (fun st p _ => hadd st p)
+    (fun r p _ hp => by
+      rcases hprev r p hp with h1 | ⟨h1, h2⟩
+      · exact Or.inl h1
+      · exact Or.inr ⟨h1, h2, trivial⟩) hmax (fun _ _ _ _ _ _ => trivial) n st r trivial h
 
 /-- a fold that keeps the selected version or replaces it by the current element's ends on the start value or on an
 element that passed the test -/
